@@ -774,8 +774,27 @@ class Executor:
         if kind == "for" and isinstance(n.iter, ast.Call) and isinstance(n.iter.func, ast.Name) and n.iter.func.id == "zip" \
                 and isinstance(n.target, ast.Tuple) and len(n.target.elts) == len(n.iter.args) and all(isinstance(e, ast.Name) for e in n.target.elts):
             # for a, b in zip(X, Y): body   ==>   for __zi in range(min(len(X), len(Y))): a = X[__zi]; b = Y[__zi]; body
-            src = "for __zi in range(min(" + ", ".join(f"len({ast.unparse(a)})" for a in n.iter.args) + ")):\n" + \
+            def _unbounded(a):
+                return isinstance(a, ast.Call) and isinstance(a.func, ast.Name) and a.func.id == "count"
+            bounded = [a for a in n.iter.args if not _unbounded(a)]
+            if not bounded:
+                raise Outside("zip of unbounded iterators only")
+            src = "for __zi in range(min(" + ", ".join(f"len({ast.unparse(a)})" for a in bounded) + ")):\n" + \
                   "".join(f"    {t.id} = {ast.unparse(a)}[__zi]\n" for t, a in zip(n.target.elts, n.iter.args)) + "    pass\n"
+            new = ast.parse(src).body[0]
+            for x in ast.walk(new):
+                x.lineno = n.lineno
+                x.col_offset = n.col_offset
+            new.body = new.body[:-1] + n.body
+            self.loop_ordinals[id(new)] = ordinal
+            return self._loop(new, st, k, start_override)
+        if kind == "for" and isinstance(n.iter, ast.Call) and isinstance(n.iter.func, ast.Name) and n.iter.func.id == "enumerate" \
+                and isinstance(n.target, ast.Tuple) and len(n.target.elts) == 2 and all(isinstance(e, ast.Name) for e in n.target.elts) \
+                and 1 <= len(n.iter.args) <= 2 and not n.iter.keywords:
+            # for i, x in enumerate(SEQ, k): body   ==>   for __zi in range(len(SEQ)): i = k + __zi; x = SEQ[__zi]; body
+            seq = ast.unparse(n.iter.args[0])
+            k0 = ast.unparse(n.iter.args[1]) if len(n.iter.args) == 2 else "0"
+            src = f"for __zi in range(len({seq})):\n    {n.target.elts[0].id} = ({k0}) + __zi\n    {n.target.elts[1].id} = ({seq})[__zi]\n    pass\n"
             new = ast.parse(src).body[0]
             for x in ast.walk(new):
                 x.lineno = n.lineno
@@ -933,6 +952,8 @@ class Executor:
             return fresh(name, "int")
         if is_real(v):
             return fresh(name, "real")
+        if is_z3(v) and (z3.is_array(v) or z3.is_quantifier(v)):
+            return z3.FreshConst(v.sort(), name)
         if isinstance(v, Arr):
             # a rebinding of an array variable inside a loop: unknown view of the same root
             return Arr(v.root, fresh(name + "_off"), v.step, fresh(name + "_n"), v.conj)
@@ -1530,7 +1551,7 @@ def _dotted(n):
 
 MODULE_ALIASES = {"np", "config", "math", "torch", "struct", "warnings", "os", "sys", "fftpack", "io", "re"}
 BUILTIN_NAMES = {"len", "min", "max", "int", "float", "bool", "abs", "range", "isinstance", "tuple", "list", "sum",
-                 "forall", "exists", "implies", "old", "ite"}
+                 "forall", "exists", "implies", "old", "ite", "count", "enumerate"}
 
 
 class Builtin:
@@ -1563,7 +1584,9 @@ class SeqVal:
 
     def get(self, ev, i, node):
         zi = Z(i)
-        if not ev.spec_mode:
+        if self.n is None:
+            j = zi
+        elif not ev.spec_mode:
             j = simp(z3.If(zi < 0, zi + Z(self.n), zi))
             ev.wd(z3.And(Z(j) >= 0, Z(j) < Z(self.n)), "list_index", node)
         else:
@@ -1627,6 +1650,16 @@ def Executor_call_builtin(self, name, st, args, kwargs, node, ev):
     if name == "float":
         (a,) = args
         return to_real(a) if is_z3(a) else Fraction(a)
+    if name == "range" and 1 <= len(args) <= 3:
+        # range(...) as a VALUE (not a loop header): a symbolic sequence lo, lo+step, ... < hi; only positive steps
+        lo, hi, stp = (0, args[0], 1) if len(args) == 1 else ((args[0], args[1], 1) if len(args) == 2 else args)
+        zlo, zhi, zst = Z(lo), Z(hi), Z(stp)
+        ev.wd(zst > 0, "range_step_positive", node)
+        n = simp(z3.If(zhi > zlo, (zhi - zlo + zst - 1) / zst, 0))
+        return SeqVal(n, lambda i: simp(zlo + Z(i) * zst))
+    if name == "count" and len(args) <= 1:
+        k0 = Z(args[0]) if args else z3.IntVal(0)
+        return SeqVal(None, lambda i: simp(k0 + Z(i)))  # itertools.count: unbounded
     if name in ("tuple", "list") and len(args) == 1 and isinstance(args[0], SeqVal):
         return args[0]
     if name == "tuple" and len(args) == 1 and isinstance(args[0], (tuple, list)):
